@@ -289,7 +289,10 @@ void conf_fill_dir(const plan_t *p)
     long total = plan_get(p, "dir.total", 0), nl = plan_get(p, "dir.namelen", 255);
     int idx = 0;
     simfs_add_dir("/cfg"); simfs_add_dir("/cfg/d");
-    simfs_add_file("/cfg/d/one", "1", 1, 0644); simfs_add_file("/cfg/d/two", "2", 1, 0644); simfs_add_dir("/cfg/d/dir");
+    simfs_add_file("/cfg/d/one", "1", 1, 0644);
+    if (plan_get(p, "dir.ghost", 0)) simfs_add_dangling("/cfg/d/ghost");       /* a name stat() cannot follow, listed right behind a regular file ... */
+    simfs_add_file("/cfg/d/two", "2", 1, 0644); simfs_add_dir("/cfg/d/dir");
+    if (plan_get(p, "dir.ghost", 0)) { simfs_add_dangling("/cfg/d/gone"); simfs_add_file("/cfg/d/three", "3", 1, 0644); simfs_add_dangling("/cfg/d/last"); }      /* ... behind a directory, and as the last entry */
     if (total <= 0) return;
     if (nl < 100) nl = 100;
     if (nl > 255) nl = 255;
@@ -315,7 +318,7 @@ void conf_env_setup(const plan_t *p)
 {
     long v1 = plan_get(p, "env.v1len", 0), hl = plan_get(p, "env.homelen", 0), td = plan_get(p, "tmpdir", 0);
     clearenv(); setenv("LC_ALL", "C", 1);          /* (whatever an earlier pass or cycle set is gone) */
-    simfs_set_call_failures((int)plan_get(p, "fdopen.fail", 0), (int)plan_get(p, "fchmod.fail", 0)); simfs_set_dir_grows((int)plan_get(p, "dir.grows", 0));
+    simfs_set_call_failures((int)plan_get(p, "fdopen.fail", 0), (int)plan_get(p, "fchmod.fail", 0)); simfs_set_dir_grows((int)plan_get(p, "dir.grows", 0)); simfs_set_fdopen_read_failure((int)plan_get(p, "exec.readfail", 0));
     setenv("HOME", "/home/u", 1); setenv("V1", "val-one", 1); setenv("EMPTY", "", 1); setenv("LONG_name_9", "L", 1);
     if (v1 > 0 && v1 <= 70000) { char *b = malloc((size_t)v1 + 1); memset(b, 'w', (size_t)v1); b[v1] = 0; setenv("V1", b, 1); free(b); probe_hit("long_env_value"); }
     if (hl > 0 && hl <= 70000) { char *b = malloc((size_t)hl + 3); b[0] = '/'; memset(b + 1, 'h', (size_t)hl); b[hl + 1] = 0; setenv("HOME", b, 1); free(b); probe_hit("long_home"); }
